@@ -1,11 +1,678 @@
-//! C17 (not built yet)
-use crate::report::{Disagreement, Run};
-use serde_json::Value;
+//! C17 Sheet rename, move and duplicate preserve values.
+//!
+//! A three-sheet workbook (`Alpha`, `My Sheet`, `Gamma`; `Ghost` does not exist) whose sheets all hold the
+//! same battery of formulas over every sheet s (bare and quoted cell references, bare and quoted ranges,
+//! two-sheet arithmetic, a multi-argument call, global cell and range names, a sheet-local name, same-sheet
+//! references). Every operation of the alphabet {rename each sheet to each of 8 names, move each sheet to
+//! each index, duplicate each sheet} is applied after every prefix of the same alphabet (length <= 1 quick,
+//! <= 2 thorough), through `Model` and through `UserModel`, under several language / locale settings.
+//!
+//! Oracle after the last operation: every formula value is what it was; after a rename every formula text is
+//! the text before with the printed old name replaced by the printed new name at reference positions (so
+//! references to other sheets, existing or not, print exactly as before); after move / duplicate every text
+//! is unchanged; the cells of a duplicate have the values of its source.
 
-pub fn run(run: &mut Run) {
-    run.machinery_errors.push("C17: check not built yet".into());
+use crate::report::{Disagreement, Run};
+use ironcalc_base::cell::CellValue;
+use ironcalc_base::{Model, UserModel};
+use serde::{Deserialize, Serialize};
+use serde_json::{json, Value};
+use std::collections::{BTreeMap, BTreeSet, HashSet};
+use std::sync::OnceLock;
+
+pub const SHEETS: [&str; 3] = ["Alpha", "My Sheet", "Gamma"];
+pub const GHOST: &str = "Ghost";
+pub const NEW_NAMES: [&str; 7] = ["New", "A B", "O'Brien", "A1", "TRUE", "R1C1", "Ghost"];
+pub const LANGS: [&str; 5] = ["en", "es", "fr", "de", "it"];
+
+#[derive(Clone, PartialEq, Debug, Serialize, Deserialize)]
+pub enum Op {
+    /// rename the sheet at index to the name
+    Rename(u32, String),
+    /// rename the sheet at index to its own name in the other letter case
+    RenameCase(u32),
+    Move(u32, u32),
+    Duplicate(u32),
 }
 
-pub fn replay(_case: &Value) -> Vec<Disagreement> {
-    vec![]
+impl Op {
+    fn kind(&self) -> &'static str {
+        match self {
+            Op::Rename(..) => "rename",
+            Op::RenameCase(..) => "rename-case",
+            Op::Move(..) => "move",
+            Op::Duplicate(..) => "duplicate",
+        }
+    }
+}
+
+pub fn alphabet() -> Vec<Op> {
+    let mut v = vec![];
+    for i in 0..3 {
+        for n in NEW_NAMES {
+            v.push(Op::Rename(i, n.to_string()));
+        }
+        v.push(Op::RenameCase(i));
+    }
+    for i in 0..3 {
+        for j in 0..3 {
+            v.push(Op::Move(i, j));
+        }
+    }
+    for i in 0..3 {
+        v.push(Op::Duplicate(i));
+    }
+    v
+}
+
+fn quoted(name: &str) -> String {
+    format!("'{}'", name.replace('\'', "''"))
+}
+
+/// A formula of the battery: where it is, what kind it is, which sheets (0..=2, 3 = Ghost) it names.
+#[derive(Clone, Debug)]
+pub struct Formula {
+    host: usize,
+    row: i32,
+    class: &'static str,
+    slots: Vec<usize>,
+    input: String,
+}
+
+const COL: i32 = 3;
+
+fn sheet_name(t: usize) -> &'static str {
+    if t < 3 {
+        SHEETS[t]
+    } else {
+        GHOST
+    }
+}
+
+fn bare(t: usize) -> String {
+    // `My Sheet` cannot be typed without quotes
+    if t == 1 {
+        quoted(sheet_name(t))
+    } else {
+        sheet_name(t).to_string()
+    }
+}
+
+pub fn battery() -> Vec<Formula> {
+    let mut v = vec![];
+    for host in 0..3 {
+        let mut row = 1;
+        let mut push = |class: &'static str, slots: Vec<usize>, input: String| {
+            v.push(Formula { host, row, class, slots, input });
+            row += 1;
+        };
+        for t in 0..4 {
+            push("cell-ref", vec![t], format!("={}!A1", bare(t)));
+            push("quoted-cell-ref", vec![t], format!("={}!A1", quoted(sheet_name(t))));
+            push("range", vec![t], format!("=SUM({}!A1:A2)", bare(t)));
+            push("quoted-abs-range", vec![t], format!("=SUM({}!$A$1:$A$2)*2", quoted(sheet_name(t))));
+        }
+        for t in 0..4 {
+            for u in 0..4 {
+                if t != u {
+                    push("two-sheet-arithmetic", vec![t, u], format!("={}!A1+{}!A2*2", bare(t), bare(u)));
+                }
+            }
+        }
+        push("multi-arg-call", vec![0, 2], format!("=SUM({}!A1,{}!A2,0.5)", bare(0), bare(2)));
+        push("multi-arg-call", vec![1, 3], format!("=SUM({}!A1,{}!A2,0.5)", bare(1), bare(3)));
+        for t in 0..3 {
+            push("global-cell-name", vec![t], format!("=gn{}+1", t));
+            push("global-range-name", vec![t], format!("=SUM(gr{})", t));
+        }
+        push("local-name", vec![(host + 1) % 3], "=loc*3".to_string());
+        push("same-sheet", vec![], "=A1+A2".to_string());
+        push("same-sheet", vec![], "=SUM(A1:A2)".to_string());
+    }
+    v
+}
+
+fn seed_bytes() -> &'static [u8] {
+    static B: OnceLock<Vec<u8>> = OnceLock::new();
+    B.get_or_init(|| {
+        let mut m = Model::new_empty("c17", "en", "UTC", "en").expect("new_empty");
+        m.rename_sheet_by_index(0, SHEETS[0]).expect("rename");
+        m.add_sheet(SHEETS[1]).expect("add");
+        m.add_sheet(SHEETS[2]).expect("add");
+        for s in 0..3u32 {
+            m.set_user_input(s, 1, 1, format!("{}", 10 * (s + 1))).expect("input");
+            m.set_user_input(s, 2, 1, format!("{}", s + 1)).expect("input");
+        }
+        for t in 0..3 {
+            m.new_defined_name(&format!("gn{}", t), None, &format!("{}!$A$1", quoted(SHEETS[t]))).expect("name");
+            m.new_defined_name(&format!("gr{}", t), None, &format!("{}!$A$1:$A$2", quoted(SHEETS[t]))).expect("name");
+            m.new_defined_name("loc", Some(t as u32), &format!("{}!$A$1", quoted(SHEETS[(t + 1) % 3]))).expect("name");
+        }
+        for f in battery() {
+            m.set_user_input(f.host as u32, f.row, COL, f.input.clone()).expect("formula input");
+        }
+        m.evaluate();
+        m.to_bytes()
+    })
+}
+
+/// How the engine prints a sheet name in front of `!` (measured on a fresh workbook that has the sheet).
+pub fn printed(name: &str) -> String {
+    static CACHE: OnceLock<std::sync::Mutex<BTreeMap<String, String>>> = OnceLock::new();
+    let cache = CACHE.get_or_init(|| std::sync::Mutex::new(BTreeMap::new()));
+    if let Some(p) = cache.lock().unwrap().get(name) {
+        return p.clone();
+    }
+    let mut m = Model::new_empty("p", "en", "UTC", "en").expect("new_empty");
+    let _ = m.rename_sheet_by_index(0, "ZzHost");
+    let p = match m.add_sheet(name) {
+        Ok(()) => {
+            let _ = m.set_user_input(0, 1, 1, format!("={}!B7", quoted(name)));
+            let t = m.get_cell_formula(0, 1, 1).ok().flatten().unwrap_or_default();
+            t.trim_start_matches('=').trim_end_matches("!B7").to_string()
+        }
+        Err(_) => quoted(name),
+    };
+    cache.lock().unwrap().insert(name.to_string(), p.clone());
+    p
+}
+
+/// Replaces `old!` by `new!` where `old` stands as a whole sheet qualifier.
+pub fn replace_qualifier(text: &str, old: &str, new: &str) -> String {
+    let pat = format!("{}!", old);
+    let mut out = String::new();
+    let mut rest = text;
+    let mut prev: Option<char> = None;
+    while let Some(k) = rest.find(&pat) {
+        let before = rest[..k].chars().last().or(prev);
+        let boundary = match before {
+            None => true,
+            Some(c) => !(c.is_alphanumeric() || c == '_' || c == '.' || c == '\''),
+        };
+        out.push_str(&rest[..k]);
+        if boundary {
+            out.push_str(new);
+            out.push('!');
+        } else {
+            out.push_str(&pat);
+        }
+        prev = Some('!');
+        rest = &rest[k + pat.len()..];
+    }
+    out.push_str(rest);
+    out
+}
+
+// ---------------------------------------------------------------------------------------------------------
+
+pub enum Subject {
+    M(Model<'static>),
+    U(UserModel<'static>),
+}
+
+impl Subject {
+    fn model(&self) -> &Model<'_> {
+        match self {
+            Subject::M(m) => m,
+            Subject::U(u) => u.get_model(),
+        }
+    }
+    fn apply(&mut self, op: &Op) -> Result<(), String> {
+        let name_of = |m: &Model, i: u32| -> Result<String, String> { Ok(m.workbook.worksheet(i)?.get_name()) };
+        let r = match (self, op) {
+            (Subject::M(m), Op::Rename(i, n)) => m.rename_sheet_by_index(*i, n),
+            (Subject::M(m), Op::RenameCase(i)) => {
+                let n = other_case(&name_of(m, *i)?);
+                m.rename_sheet_by_index(*i, &n)
+            }
+            (Subject::M(m), Op::Move(i, j)) => m.move_sheet(*i, *j),
+            (Subject::M(m), Op::Duplicate(i)) => m.duplicate_sheet(*i).map(|_| ()),
+            (Subject::U(u), Op::Rename(i, n)) => u.rename_sheet(*i, n),
+            (Subject::U(u), Op::RenameCase(i)) => {
+                let n = other_case(&name_of(u.get_model(), *i)?);
+                u.rename_sheet(*i, &n)
+            }
+            (Subject::U(u), Op::Move(i, j)) => u.move_sheet(*i, *j),
+            (Subject::U(u), Op::Duplicate(i)) => u.duplicate_sheet(*i),
+        };
+        r
+    }
+    fn evaluate(&mut self) {
+        match self {
+            Subject::M(m) => m.evaluate(),
+            Subject::U(u) => u.evaluate(),
+        }
+    }
+}
+
+fn other_case(n: &str) -> String {
+    let up = n.to_uppercase();
+    if up != n {
+        up
+    } else {
+        n.to_lowercase()
+    }
+}
+
+#[derive(Clone, Debug, PartialEq)]
+pub struct CellObs {
+    text: String,
+    value: String,
+}
+
+pub struct Snapshot {
+    /// sheet names in order, sheet ids in order
+    names: Vec<String>,
+    ids: Vec<u32>,
+    /// (sheet id, row) -> observation of column C
+    cells: BTreeMap<(u32, i32), CellObs>,
+    /// (name, scope sheet id) -> formula text
+    defined: BTreeMap<(String, Option<u32>), String>,
+}
+
+fn value_text(v: &Result<CellValue, String>) -> String {
+    match v {
+        Ok(CellValue::None) => "<empty>".into(),
+        Ok(CellValue::String(s)) => format!("\"{}\"", s),
+        Ok(CellValue::Number(n)) => format!("{:?}", n),
+        Ok(CellValue::Boolean(b)) => format!("{}", b),
+        Err(e) => format!("<error {}>", e),
+    }
+}
+
+fn snapshot(m: &Model, rows: i32) -> Snapshot {
+    let mut names = vec![];
+    let mut ids = vec![];
+    let mut cells = BTreeMap::new();
+    for (i, ws) in m.workbook.worksheets.iter().enumerate() {
+        names.push(ws.get_name());
+        ids.push(ws.sheet_id);
+        for row in 1..=rows {
+            let text = m.get_cell_formula(i as u32, row, COL).ok().flatten().unwrap_or_default();
+            if text.is_empty() {
+                continue;
+            }
+            let value = value_text(&m.get_cell_value_by_index(i as u32, row, COL));
+            cells.insert((ws.sheet_id, row), CellObs { text, value });
+        }
+    }
+    let mut defined = BTreeMap::new();
+    for (name, scope, formula) in m.get_defined_name_list() {
+        let sid = scope.and_then(|s| m.workbook.worksheets.get(s as usize).map(|w| w.sheet_id));
+        defined.insert((name, sid), formula);
+    }
+    Snapshot { names, ids, cells, defined }
+}
+
+#[derive(Default)]
+pub struct CaseOut {
+    found: Vec<(String, String)>,
+    compared: u64,
+    unspecified: u64,
+    cut: bool,
+    outcome: u128,
+}
+
+fn cfg_class(lang: &str, locale: &str) -> String {
+    // the language is part of the case, not of the defect class (no disagreement met so far depends on it)
+    let _ = lang;
+    format!("locale={}", if locale == "en" { "en" } else { "non-en" })
+}
+
+/// Runs prefix + op on a fresh copy and judges the last operation.
+pub fn judge(user: bool, lang: &str, locale: &str, word: &[Op]) -> CaseOut {
+    let mut out = CaseOut::default();
+    let bat = battery();
+    let rows = bat.iter().map(|f| f.row).max().unwrap_or(1);
+    let lang_s: &'static str = LANGS.iter().find(|l| **l == lang).copied().unwrap_or("en");
+    let mut subj = if user {
+        let mut u = UserModel::from_bytes(seed_bytes(), "en").expect("from_bytes");
+        if locale != "en" {
+            u.set_locale(locale).expect("locale");
+        }
+        if lang_s != "en" {
+            u.set_language(lang_s).expect("language");
+        }
+        Subject::U(u)
+    } else {
+        let mut m = Model::from_bytes(seed_bytes(), "en").expect("from_bytes");
+        if locale != "en" {
+            m.set_locale(locale).expect("locale");
+        }
+        if lang_s != "en" {
+            m.set_language(lang_s).expect("language");
+        }
+        Subject::M(m)
+    };
+    subj.evaluate();
+    let seed_ids: Vec<u32> = subj.model().workbook.worksheets.iter().map(|w| w.sheet_id).collect();
+    let (prefix, last) = word.split_at(word.len() - 1);
+    let op = &last[0];
+    for p in prefix {
+        match crate::env::guarded(|| subj.apply(p)) {
+            Ok(Ok(())) => {}
+            _ => {
+                out.cut = true;
+                return out;
+            }
+        }
+    }
+    subj.evaluate();
+    let before = snapshot(subj.model(), rows);
+    let level = if user { "user" } else { "model" };
+    let head = format!("{} op={} {}", level, op.kind(), cfg_class(lang, locale));
+    // what the operation means in the state before
+    let idx = match op {
+        Op::Rename(i, _) | Op::RenameCase(i) | Op::Move(i, _) | Op::Duplicate(i) => *i as usize,
+    };
+    if idx >= before.names.len() {
+        out.cut = true;
+        return out;
+    }
+    let old_name = before.names[idx].clone();
+    let new_name = match op {
+        Op::Rename(_, n) => Some(n.clone()),
+        Op::RenameCase(_) => Some(other_case(&old_name)),
+        _ => None,
+    };
+    let clash = new_name.as_ref().map(|n| {
+        before.names.iter().enumerate().any(|(k, x)| k != idx && x.to_uppercase() == n.to_uppercase())
+    });
+    let r = crate::env::guarded(|| subj.apply(op));
+    match r {
+        Err(p) => {
+            out.found.push((
+                format!("{} panic at={}", head, p.split(" @ ").last().unwrap_or("")),
+                format!("{:?} panicked: {}", op, p),
+            ));
+            return out;
+        }
+        Ok(Err(e)) => {
+            if clash == Some(false) || matches!(op, Op::Duplicate(_)) || matches!(op, Op::Move(i, j) if (*i as usize) < before.names.len() && (*j as usize) < before.names.len()) {
+                out.found.push((format!("{} refused", head), format!("{:?} was refused: {}", op, e)));
+            } else {
+                out.cut = true;
+            }
+            return out;
+        }
+        Ok(Ok(())) => {}
+    }
+    if clash == Some(true) {
+        // accepting a duplicate sheet name is C27's business; nothing to compare here
+        out.cut = true;
+        return out;
+    }
+    subj.evaluate();
+    let after = snapshot(subj.model(), rows);
+    out.outcome = crate::env::digest(&format!("{:?}{:?}", after.names, after.cells.values().map(|c| &c.value).collect::<Vec<_>>()));
+    // a rename to a name that missing-sheet references already use makes them resolve: not specified
+    let revives = match &new_name {
+        Some(n) => {
+            n.to_uppercase() == GHOST.to_uppercase() && !before.names.iter().any(|x| x.to_uppercase() == GHOST.to_uppercase())
+        }
+        None => false,
+    };
+    let (p_old, p_new) = match &new_name {
+        Some(n) => (printed(&old_name), printed(n)),
+        None => (String::new(), String::new()),
+    };
+    let ghost_q = format!("{}!", printed(GHOST));
+    let renamed_id = before.ids[idx];
+    // classification of a battery formula against this operation
+    let describe = |sid: u32, row: i32| -> String {
+        let host = seed_ids.iter().position(|x| *x == sid);
+        let f = host.and_then(|h| bat.iter().find(|f| f.host == h && f.row == row));
+        match f {
+            None => match bat.iter().find(|f| f.host == 0 && f.row == row) {
+                Some(f) => format!("formula={} refs=on-a-copied-sheet", f.class),
+                None => "formula=unknown".to_string(),
+            },
+            Some(f) => {
+                let mut rel = BTreeSet::new();
+                for t in &f.slots {
+                    let r = if *t < 3 {
+                        if new_name.is_some() && seed_ids[*t] == renamed_id {
+                            "renamed"
+                        } else {
+                            "other"
+                        }
+                    } else if before.names.iter().any(|x| x.to_uppercase() == GHOST.to_uppercase()) {
+                        "formerly-missing"
+                    } else {
+                        "missing"
+                    };
+                    rel.insert(r);
+                }
+                format!("formula={} refs={}", f.class, rel.into_iter().collect::<Vec<_>>().join("+"))
+            }
+        }
+    };
+    for ((sid, row), b) in &before.cells {
+        let a = match after.cells.get(&(*sid, *row)) {
+            Some(a) => a,
+            None => {
+                out.found.push((
+                    format!("{} cell-lost {}", head, describe(*sid, *row)),
+                    format!("{:?}: formula `{}` of sheet id {} row {} is gone", op, b.text, sid, row),
+                ));
+                continue;
+            }
+        };
+        // text
+        let exp_text = if new_name.is_some() { replace_qualifier(&b.text, &p_old, &p_new) } else { b.text.clone() };
+        out.compared += 1;
+        if a.text != exp_text {
+            out.found.push((
+                format!("{} field=text {}", head, describe(*sid, *row)),
+                format!("{:?} (sheet `{}`): formula `{}` became `{}`, expected `{}`", op, old_name, b.text, a.text, exp_text),
+            ));
+        }
+        // value
+        if revives && b.text.contains(&ghost_q) {
+            out.unspecified += 1;
+        } else {
+            out.compared += 1;
+            if a.value != b.value {
+                out.found.push((
+                    format!("{} field=value {}", head, describe(*sid, *row)),
+                    format!(
+                        "{:?} (sheet `{}`): `{}` had value {} and now `{}` has value {}",
+                        op, old_name, b.text, b.value, a.text, a.value
+                    ),
+                ));
+            }
+        }
+    }
+    // defined names: same rule for their formula text
+    for (k, bf) in &before.defined {
+        match after.defined.get(k) {
+            None => out.found.push((
+                format!("{} defined-name-lost", head),
+                format!("{:?}: defined name {:?} is gone", op, k),
+            )),
+            Some(af) => {
+                let exp = if new_name.is_some() { replace_qualifier(bf, &p_old, &p_new) } else { bf.clone() };
+                out.compared += 1;
+                if *af != exp {
+                    out.found.push((
+                        format!("{} field=defined-name-formula", head),
+                        format!("{:?}: name {:?} `{}` became `{}`, expected `{}`", op, k, bf, af, exp),
+                    ));
+                }
+            }
+        }
+    }
+    // a duplicate computes what its source computes
+    if let Op::Duplicate(_) = op {
+        let src_id = before.ids[idx];
+        let new_ids: Vec<u32> = after.ids.iter().filter(|i| !before.ids.contains(i)).copied().collect();
+        if new_ids.len() != 1 || after.ids.get(idx + 1) != new_ids.first() {
+            out.found.push((
+                format!("{} copy-not-after-source", head),
+                format!("{:?}: sheets before {:?}, after {:?}", op, before.names, after.names),
+            ));
+        } else {
+            let nid = new_ids[0];
+            for ((sid, row), src) in after.cells.iter().filter(|((s, _), _)| *s == src_id) {
+                let _ = sid;
+                out.compared += 1;
+                match after.cells.get(&(nid, *row)) {
+                    None => out.found.push((
+                        format!("{} copy-misses-cell {}", head, describe(src_id, *row)),
+                        format!("{:?}: the copy has no formula in row {} (source `{}`)", op, row, src.text),
+                    )),
+                    Some(c) => {
+                        if c.value != src.value {
+                            out.found.push((
+                                format!("{} copy-value-differs {}", head, describe(src_id, *row)),
+                                format!(
+                                    "{:?}: source `{}` = {}, copy `{}` = {}",
+                                    op, src.text, src.value, c.text, c.value
+                                ),
+                            ));
+                        }
+                    }
+                }
+            }
+        }
+    }
+    // one disagreement per signature and case
+    let mut seen = HashSet::new();
+    out.found.retain(|(s, _)| seen.insert(s.clone()));
+    out
+}
+
+fn case_json(user: bool, lang: &str, locale: &str, word: &[Op]) -> Value {
+    json!({"through": if user { "UserModel" } else { "Model" }, "language": lang, "locale": locale, "ops": word})
+}
+
+pub fn configs(thorough: bool) -> Vec<(&'static str, &'static str)> {
+    if thorough {
+        let mut v = vec![];
+        for l in LANGS {
+            for loc in ["en", "de"] {
+                v.push((l, loc));
+            }
+        }
+        v
+    } else {
+        vec![("en", "en"), ("de", "en"), ("en", "de"), ("de", "de")]
+    }
+}
+
+pub fn run(run: &mut Run) {
+    let thorough = run.tier.thorough();
+    let alpha = alphabet();
+    let a = alpha.len();
+    let cfgs = configs(thorough);
+    // units: (config, level, prefix): empty, every single operation, and (thorough, de/de) every pair
+    let mut units: Vec<(usize, bool, Vec<usize>)> = vec![];
+    for (ci, cfg) in cfgs.iter().enumerate() {
+        for user in [false, true] {
+            units.push((ci, user, vec![]));
+            for p in 0..a {
+                units.push((ci, user, vec![p]));
+            }
+            if thorough && *cfg == ("de", "de") {
+                for p in 0..a {
+                    for q in 0..a {
+                        units.push((ci, user, vec![p, q]));
+                    }
+                }
+            }
+        }
+    }
+    let res = crate::env::par_units(units.len(), |u| {
+        let (ci, user, prefix) = &units[u];
+        let (lang, locale) = cfgs[*ci];
+        let mut found: BTreeMap<String, (u64, Value, String)> = BTreeMap::new();
+        let (mut cases, mut cut, mut compared, mut unspec, mut steps) = (0u64, 0u64, 0u64, 0u64, 0u64);
+        let mut outcomes = HashSet::new();
+        for op in &alpha {
+            let mut word: Vec<Op> = prefix.iter().map(|i| alpha[*i].clone()).collect();
+            word.push(op.clone());
+            let o = judge(*user, lang, locale, &word);
+            if o.cut {
+                cut += 1;
+                continue;
+            }
+            cases += 1;
+            steps += word.len() as u64;
+            compared += o.compared;
+            unspec += o.unspecified;
+            outcomes.insert(o.outcome);
+            for (sig, detail) in o.found {
+                match found.get_mut(&sig) {
+                    Some(e) => e.0 += 1,
+                    None => {
+                        found.insert(sig, (1, case_json(*user, lang, locale, &word), detail));
+                    }
+                }
+            }
+        }
+        (found, cases, cut, compared, unspec, steps, outcomes)
+    });
+    let mut outcomes = HashSet::new();
+    let (mut cut, mut compared, mut unspec) = (0u64, 0u64, 0u64);
+    for r in res {
+        match r {
+            Ok((found, cases, c, cmp, un, steps, oc)) => {
+                run.evaluations += cases;
+                run.transitions += steps;
+                cut += c;
+                compared += cmp;
+                unspec += un;
+                outcomes.extend(oc);
+                for (sig, (n, case, detail)) in found {
+                    run.add(Disagreement { sig: sig.clone(), case, detail });
+                    if let Some(e) = run.clusters.get_mut(&sig) {
+                        e.0 += n - 1;
+                    }
+                }
+            }
+            Err(e) => run.machinery_errors.push(format!("unit panicked: {}", e)),
+        }
+    }
+    run.traces = run.evaluations;
+    run.states = outcomes.len() as u64;
+    run.distinct_outcomes = outcomes.len() as u64;
+    run.nontrivial = run.evaluations;
+    run.bound = json!({
+        "sheets": SHEETS, "missing_sheet": GHOST,
+        "formulas_per_sheet": battery().len() / 3,
+        "operations": a,
+        "rename_targets": NEW_NAMES, "plus": "own name in the other letter case",
+        "prefix_length": if thorough { "<=1 for every configuration, <=2 for de/de" } else { "<=1" },
+        "through": ["Model", "UserModel"],
+        "language_locale": cfgs.iter().map(|c| format!("{}/{}", c.0, c.1)).collect::<Vec<_>>(),
+        "histories_cut_at_refused_operation": cut,
+        "comparisons": compared,
+        "unspecified_not_compared": unspec,
+    });
+    run.rule = "every operation of the alphabet after every prefix of the stated length, on a fresh copy of the workbook; every formula's text and value and every defined name's formula is compared before/after the last operation (rename: text with the printed old name replaced by the printed new one; move/duplicate: unchanged; duplicate: copy values equal source values). Every case is non-trivial (the battery references every sheet)".into();
+    run.sample(case_json(false, "en", "en", &[alpha[0].clone()]));
+    run.sample(case_json(true, "de", "de", &[alpha[a / 2].clone(), alpha[6].clone()]));
+    run.sample(case_json(false, "en", "en", &[alpha[a - 1].clone(), alpha[3].clone()]));
+    run.exhaustive = true;
+    run.assume("values of formulas that name the missing sheet `Ghost` are not compared when a sheet is renamed to `Ghost` (the statement keeps their text, and the text now resolves)");
+    run.assume("how a sheet name prints in front of `!` is measured on a fresh workbook that has a sheet of that name");
+    run.assume("operations the engine refuses because the new name already exists end the history (not judged here)");
+}
+
+pub fn replay(case: &Value) -> Vec<Disagreement> {
+    let user = case["through"] == "UserModel";
+    let lang = case["language"].as_str().unwrap_or("en").to_string();
+    let locale = case["locale"].as_str().unwrap_or("en").to_string();
+    let word: Vec<Op> = match serde_json::from_value(case["ops"].clone()) {
+        Ok(w) => w,
+        Err(_) => return vec![],
+    };
+    if word.is_empty() {
+        return vec![];
+    }
+    judge(user, &lang, &locale, &word)
+        .found
+        .into_iter()
+        .map(|(sig, detail)| Disagreement { sig, case: case.clone(), detail })
+        .collect()
 }
